@@ -107,6 +107,7 @@ function structuralCheck (job, resp) {
     if (!A.isHookCall(last)) return
     for (const a of last.arguments.slice(1)) {
       if (a.type !== 'SpreadElement') continue
+      if (a.argument.type === 'Literal') continue // a spread literal is copied like any literal operand (nothing to evaluate twice)
       const d = a.argument.type === 'Identifier' ? defs.get(a.argument.name) : null
       const ok = d && d.type === 'ArrayExpression' && d.elements.length === 1 && d.elements[0] && d.elements[0].type === 'SpreadElement'
       if (!ok) problems.push({ name: last.callee.property.name, kind: 'spread-not-materialised-once', detail: 'a spread operand of the hook is not a temporary holding [...iterable]: the iterable is iterated once for the call and again for the hook', text: clip(resp.ok.raw.code.slice(last.start, last.end), 200) })
